@@ -22,6 +22,7 @@ var avoidable = []string{
 	"arg-with-space", "empty-arg", "arg-with-crlf", "non-utf8-arg", "filtered-command",
 	"snapshot-of-list", "follower-needed-msgsnap", "restart-after-snapshot", "torn-wal-tail", "unsynced-wal-tail-lost",
 	"after-rconf-delete", "after-rconf-delete-highest-id", "after-rconf-add", "after-rconf-add-with-snapshot",
+	"concurrent-clients-one-node", "clients-on-several-nodes",
 }
 
 func knownClass(env *core.Env, class string) bool {
@@ -50,7 +51,8 @@ func knownClass(env *core.Env, class string) bool {
 // avoided whether or not they are listed, and no run aims at listed classes.
 var selfTest = os.Getenv("VERIF_DETLOG") != ""
 
-var processKillers = []string{"snapshot-of-list", "torn-wal-tail", "after-rconf-add-with-snapshot", "after-rconf-delete-highest-id"}
+var processKillers = []string{"snapshot-of-list", "torn-wal-tail", "after-rconf-add-with-snapshot", "after-rconf-delete-highest-id",
+	"concurrent-clients-one-node"}
 
 func isAimRun(run int) bool { return run%8 == 7 && !selfTest }
 
@@ -130,6 +132,9 @@ func snapKnobs(r *core.Rand, k *Knobs) {
 }
 
 func sectorLossKnob(k *Knobs, av avoidSet) {
+	// two connection handlers of one node active at once race on the
+	// proposal-id -> reply-channel map; harmless on one P, fatal with more
+	k.OnePerNode = av["concurrent-clients-one-node"]
 	if av["torn-wal-tail"] {
 		k.SectorLoss = "all-or-none"
 	}
@@ -625,5 +630,58 @@ func genC14(rng *core.Rand, env *core.Env, run int) *Scenario {
 		p.Cmds = append(p.Cmds, Cmd{Args: g.cmd()})
 	}
 	sc.Clients = []ClientProg{p}
+	return sc
+}
+
+// ---- race sweep ---------------------------------------------------------------------
+
+// genRace: several clients of ONE node send simple commands in the same
+// window (Burst), no faults.  Under -race any unsynchronised access shared by
+// the connection handlers and the apply loop is reported.
+func genRace(rng *core.Rand, env *core.Env, run int) *Scenario {
+	r := rng
+	av := avoidFor(env, run)
+	nodes := pick(r, []int{1, 3, 3})
+	if isAimRun(run) && run%16 == 15 {
+		nodes = 3 // the second listed shape needs clients on several nodes
+	}
+	sc := &Scenario{Kind: env.Property, Variant: "race", Knobs: baseKnobs(r, nodes), Aim: isAimRun(run)}
+	k := &sc.Knobs
+	k.OpTimeoutTicks = 1 << 20
+	k.WTick = 3
+	switch {
+	case av["concurrent-clients-one-node"] && av["clients-on-several-nodes"]:
+		k.OneAtATime = true
+	case av["concurrent-clients-one-node"]:
+		k.OnePerNode = true
+	case sc.Aim && run%16 == 15:
+		k.OnePerNode = true // aim at the second listed shape
+	default:
+		k.Burst = true
+	}
+	nclients := 2 + r.Intn(4)
+	if k.OnePerNode {
+		nclients = 3 + r.Intn(3)
+		k.WClient = 30 // keep several nodes busy at once
+	}
+	target := 1 + r.Intn(nodes)
+	seq := 0
+	for ci := 0; ci < nclients; ci++ {
+		p := ClientProg{Name: fmt.Sprintf("c%d", ci), Sticky: true}
+		for i := 0; i < 2+r.Intn(5); i++ {
+			seq++
+			n := target
+			if !k.Burst {
+				n = 0
+			}
+			key := pick(r, []string{"s0", "s1"})
+			if r.Bool(0.6) {
+				p.Cmds = append(p.Cmds, Cmd{Args: bs("set", key, fmt.Sprintf("c%dv%d", ci, seq)), Node: n})
+			} else {
+				p.Cmds = append(p.Cmds, Cmd{Args: bs("get", key), Node: n})
+			}
+		}
+		sc.Clients = append(sc.Clients, p)
+	}
 	return sc
 }
